@@ -126,6 +126,7 @@ pub fn run(r: &mut Report) {
             }
         }
     }
+    inspection_order(r);
     // several inspections: EVERY one of them must have exited with 0, also when two of them share a name, in either order
     for (id, runs, expect) in [("two-inspections-second-fails", vec![("i1", "true"), ("i2", "false")], false), ("two-inspections-first-fails", vec![("i1", "false"), ("i2", "true")], false),
                                ("same-name-first-fails", vec![("dup", "false"), ("dup", "true")], false), ("same-name-second-fails", vec![("dup", "true"), ("dup", "false")], false),
@@ -136,4 +137,32 @@ pub fn run(r: &mut Report) {
     }
     let (res, _, _) = run_case(StepFault::None, inspection("insp", &["sh", "-c", "echo x > pre; true"], allow_all(), allow_all()));
     r.case("inspection-allow-all", json!({}), "Ok", format!("verdict_ok={:?}", res), matches!(res, Ok(true)));
+}
+
+/// C08 / C13
+pub fn inspection_order(r: &mut Report) {
+    // inspections run in the order the layout lists them, and each one records the working directory as it finds it - including the
+    // link files earlier inspections left there.  Repeated in fresh directories (the verdict must not vary).
+    {
+        let none = || vec![ArtifactRule::Disallow(VirtualTargetPath::new("*".into()).unwrap())];
+        let no_links = || vec![ArtifactRule::Disallow(VirtualTargetPath::new("*.link".into()).unwrap()), ArtifactRule::Allow(VirtualTargetPath::new("*".into()).unwrap())];
+        let cases: Vec<(&str, Vec<Inspection>, bool)> = vec![
+            ("first-forbids-everything-second-free", vec![inspection("first", &["true"], none(), allow_all()), inspection("second", &["true"], allow_all(), allow_all())], true),
+            ("first-free-second-forbids-everything", vec![inspection("first", &["true"], allow_all(), allow_all()), inspection("second", &["true"], none(), allow_all())], false),
+            ("first-forbids-link-files-second-free", vec![inspection("check-clean", &["true"], no_links(), allow_all()), inspection("report", &["true"], allow_all(), allow_all())], true),
+            ("second-forbids-link-files", vec![inspection("report", &["true"], allow_all(), allow_all()), inspection("check-clean", &["true"], no_links(), allow_all())], false),
+            ("three-inspections-last-forbids-link-files", vec![inspection("zeta", &["true"], allow_all(), allow_all()), inspection("alpha", &["true"], allow_all(), allow_all()), inspection("mid", &["true"], no_links(), allow_all())], false),
+            ("three-inspections-first-forbids-link-files", vec![inspection("mid", &["true"], no_links(), allow_all()), inspection("zeta", &["true"], allow_all(), allow_all()), inspection("alpha", &["true"], allow_all(), allow_all())], true),
+        ];
+        for (id, insps, expect) in cases {
+            let mut seen = std::collections::BTreeSet::new();
+            let reps = crate::util::scale(12, 60);
+            for _ in 0..reps {
+                let (res, _, _) = run_case_n(StepFault::None, insps.clone());
+                seen.insert(format!("{:?}", res));
+            }
+            let want = format!("Ok({})", expect);
+            r.case("inspection-order-and-what-each-finds", json!({"scenario": id, "repetitions": reps}), &format!("{} on every run", want), format!("{:?}", seen), seen.len() == 1 && seen.contains(&want));
+        }
+    }
 }
